@@ -1,16 +1,24 @@
 #!/bin/bash
-# try_seed.sh <seed-dir> <CHECK-ID> [tier] [extra vcheck args] — apply /verif/seeded/<x>/patch.diff
-# to /repo, run one check, and undo the change straight afterwards.  Prints the verdict.
+# try_seed.sh <seed-dir> <CHECK-ID> [tier] [extra vcheck args] — apply <seed-dir>/patch.diff to /repo,
+# BUILD the check from that tree, undo the change straight afterwards (all under /verif/.work/repo.lock,
+# which every vcheck build takes, so that no other check is ever built from the changed tree), then run
+# the seeded binary.  Prints the verdict.
 set -u
 dir=$1; id=$2; tier=${3:-quick}; shift; shift; shift 2>/dev/null
+mkdir -p /verif/.work
+exec 8>/verif/.work/repo.lock
+flock 8
 if [ -n "$(git -C /repo status --porcelain)" ]; then echo "refusing: /repo has local changes"; exit 2; fi
 git -C /repo apply --whitespace=nowarn "$dir/patch.diff" || { echo "patch does not apply"; exit 2; }
-out=$(mktemp)
-/verif/vcheck "$id" "$tier" "$@" > "$out" 2>&1; rc=$?
+VCHECK_NOLOCK=1 VCHECK_PHASE=build VCHECK_SUFFIX=.seed /verif/vcheck "$id" "$tier" 8>&- ; brc=$?
 git -C /repo checkout -- . ; git -C /repo clean -fdq
+flock -u 8
+[ $brc -ne 0 ] && { echo "seeded tree does not build the check (exit $brc)"; exit 3; }
+out=$(mktemp)
+VCHECK_PHASE=run VCHECK_SUFFIX=.seed /verif/vcheck "$id" "$tier" "$@" > "$out" 2>&1; rc=$?
 echo "seed=$(basename $dir) check=$id tier=$tier exit=$rc"
 grep -m5 "^VIOLATION\|^  key\|HARNESS-ERROR" "$out"
 tail -3 "$out" | cut -c1-300
-# restore the evidence of the unchanged tree is the caller's business (re-run the check)
+# the evidence file now describes the seeded run: re-run the check on the unchanged tree afterwards
 rm -f "$out"
 exit $rc
